@@ -233,7 +233,10 @@ func (st *sortTable) sortOf(t types.Type) string {
 }
 
 func (st *sortTable) structSort(t types.Type, u *types.Struct) string {
-	k := typeKey(t)
+	// keyed by the underlying struct type: named struct types with identical
+	// underlying types convert into each other (ChangeType) and share a sort
+	k := typeKey(u)
+	t = u
 	if s, ok := st.structSorts[k]; ok {
 		return s
 	}
